@@ -174,10 +174,62 @@ def payout_history_suite(rng, n):
             c = int(t[i]); kinds[c] = kinds.get(c, 0) + 1
             i += 1 + {1: 3, 4: 3, 2: 2, 3: 2, 5: 2, 8: 2, 6: 1, 9: 1, 10: 1, 7: 0}[c]
     return {"suite": "payout", "name": "payout-histories", "lines": lines,
+            "incoq": {"sample": 40, "to_v": payout_to_v, "ints": payout_ints},
             "distribution": {"cases": n, "ops_by_code": {str(k): v for k, v in sorted(kinds.items())},
                              "codes": "1 withdraw_fees 2 withdraw_fees_permissionless 3 update_fees_destination 4 withdraw_insurance "
                                       "5 withdraw_emissions 6 withdraw_emissions_permissionless 7 settle_emissions "
                                       "8 update_emissions_destination 9 clock 10 account flags"}}
+
+
+def payout_to_v(lines):
+    """the sampled payout cases as Gallina terms, evaluated by vm_compute with the model's own pay_fixture / pay_trace"""
+    out = ["Require Import Base Constants TxConstants Fixed Curve Bank Payout.", "Local Open Scope Z_scope."]
+    for l in lines:
+        t = l.split()
+        dep, rate, total, fee0, ins0, t0 = t[2:8]
+        ops, _ = parse_payout_ops(l)
+        terms = []
+        for o in ops:
+            c = o[0]
+            z = lambda v: f"({v})"
+            if c == 1: terms.append(f"({o[1]}, YWithdrawFees {z(o[2])} {z(o[3])})")
+            elif c == 2: terms.append(f"(3, YWithdrawFeesPermissionless {z(o[1])} {z(o[2])})")
+            elif c == 3: terms.append(f"({o[1]}, YUpdateFeesDest {z(o[2])})")
+            elif c == 4: terms.append(f"({o[1]}, YWithdrawInsurance {z(o[2])} {z(o[3])})")
+            elif c == 5: terms.append(f"({o[1]}, YWithdrawEmissions {z(o[2])})")
+            elif c == 6: terms.append(f"(3, YWithdrawEmissionsPermissionless {z(o[1])})")
+            elif c == 7: terms.append("(3, YSettle)")
+            elif c == 8: terms.append(f"({o[1]}, YUpdateEmissionsDest {z(o[2])})")
+            elif c == 9: terms.append(f"(0, YTick {z(o[1])})")
+            else: terms.append(f"(0, YSetFlags {z(o[1])})")
+        out.append(f"Eval vm_compute in let w := pay_fixture {dep} {rate} {total} {fee0} {ins0} {t0} in "
+                   f"(0, pay_obs w) :: pay_trace w [{'; '.join(terms)}].")
+    return "\n".join(out) + "\n"
+
+
+def payout_ints(model_line):
+    """the extracted model's output line as the same flat integer list (OK -> 0, E<n> -> n, PANIC -> -1, NONE -> -2)"""
+    res = []
+    for j, sg in enumerate(model_line.split(" | ")):
+        x = sg.split()
+        if j == 0:
+            res.append(0)
+        else:
+            r = x.pop(0)
+            res.append(0 if r == "OK" else -1 if r == "PANIC" else -2 if r == "NONE" else int(r[1:]))
+        res += [int(y) for y in x]
+    return res
+
+
+def parse_payout_ops(case):
+    t = case.split()
+    ops = []
+    i = 9
+    while i < len(t):
+        c = int(t[i]); n = {1: 3, 4: 3, 2: 2, 3: 2, 5: 2, 8: 2, 6: 1, 9: 1, 10: 1, 7: 0}[c]
+        ops.append([c] + [int(x) for x in t[i + 1:i + 1 + n]])
+        i += 1 + n
+    return ops, i
 
 
 def parse_payout(case, impl):
